@@ -30,6 +30,13 @@ TEXT.update({
            "to_float32 / to_float64 of an integer value: Ok(first item converted with round-to-nearest-even, bit for bit), Err for an empty value.",
   "note": "bounded to 2 items; textual and float sources, multi-valued float conversions, extend/truncate not encoded; NumCast modelled by its documented contract; contract table in evidence",
  },
+ "C13": {
+  "engine": "M",
+  "technique": "symbolic execution of the rustc MIR of InMemDicomObject::apply_leaf and the functions it calls over a finite map with symbolic tags; z3 decides every path against a reference model of the documented semantics; replay on a real object",
+  "level": "For objects of 1-2 (thorough 0-2) elements with symbolic, possibly coinciding tags, a symbolic addressed tag and symbolic new value / text / VR: after Remove, Empty, SetVr, Set, SetStr, SetIfMissing, Replace "
+           "(thorough also SetStrIfMissing, ReplaceStr) the object holds exactly the attributes the documented semantics give - the addressed one changed (or created only where the action says so, with the dictionary's VR), all others untouched.",
+  "note": "leaf actions on flat objects only: nested selectors, push / truncate actions, the file meta table's ApplyOp and writing the resulting objects are not encoded; BTreeMap is a finite map with symbolic keys, the dictionary a contract answering any VR",
+ },
  "C15": {
   "engine": "M",
   "technique": "symbolic execution of the MIR of StandardDataDictionary::indexed_tag over the registry built by running the MIR of index() on the parsed table; z3 decides equality with the published precedence for one symbolic 32-bit tag",
@@ -205,7 +212,6 @@ NOT_APPLICABLE = {
  "C02": "same kernels as C01 (reader + writer in one harness beyond CBMC's reach here); the keep-lengths writer strategy on reference-encoded shapes is part of C04",
  "C06": "lazy vs eager reader comparison needs two full readers over the real StatefulDecoder per harness; the collector needs BufReader + global registry + dictionary; beyond both engines as built",
  "C10": "the codecs are the third-party `encoding` crate behind trait objects (one symbolic character: no verdict in 900 s on Kani; not MIR of the repository); the term<->set wiring is a finite concrete table with no quantifier for a solver",
- "C13": "InMemDicomObject::apply works on BTreeMap and nested Vec<InMemDicomObject>; Kani cost estimated beyond 24 GB, Engine M BTreeMap vocabulary not built",
  "C19": "lossless transcoding goes through the global registry, a file object and image codecs (flate2, jpeg): no unit within reach; UncompressedAdapter composition not built",
  "C20": "RLE decode_frame on 2 pixels had no verdict in 900 s on Kani (Vec::resize, Cursor, io::copy, read_to_end); the Engine M vocabulary for these was not built",
  "C23": "serde_json::Value deserialisation (maps, strings of data-dependent length) exceeded 24 GB in SAT on Kani for one element; the dicom-json visitor side was not encoded on Engine M",
